@@ -99,6 +99,9 @@ func (bc *BackendConn) EOF() bool {
 	return bc.eof
 }
 
+// Fill reads once from the socket into the log; returns false on EOF/error/timeout.
+func (bc *BackendConn) Fill(d time.Duration) bool { return bc.fill(d) }
+
 // fill reads once from the socket into the log; returns false on EOF/error/timeout.
 func (bc *BackendConn) fill(d time.Duration) bool {
 	buf := make([]byte, 64*1024)
